@@ -46,6 +46,9 @@ func deadlineCalls(p *Prog, cio *connIO, fn *ssa.Function) (arms []armSite, disa
 		if !cm.IsInvoke() || cm.Method.Name() != "SetDeadline" || !cio.mayBeConn(cm.Value) {
 			return
 		}
+		if _, isPar := unspill(cm.Args[0]).(*ssa.Parameter); isPar {
+			return // a conn type forwarding its own SetDeadline to the layer below
+		}
 		if isZeroTime(cm.Args[0]) {
 			disarms = append(disarms, call)
 			return
